@@ -22,7 +22,9 @@ def run(ctx):
     rng, seed = seeded_rng('c13')
     ctx.proof('Properties/C13.v')
     ctx.corr('glob walker sequence (lists)', walker_corr(ctx, rng, 4 if ctx.quick else 40, 40))
-    segs = ['*', 'a*', '*.txt', 'a', 'A', '*/*', '**', 'd*/', '*a*', 'data/*', 'DATA/*', '[ab]*', '.*', 'real/**', 'U*', '*p', 'Up', '*.{txt,md}', 'a*|*.txt', 's*/']
+    segs = ['*', 'a*', '*.txt', 'a', 'A', '*/*', '**', 'd*/', '*a*', 'data/*', 'DATA/*', '[ab]*', '.*', 'real/**', 'U*', '*p', 'Up', '*.{txt,md}', 'a*|*.txt', 's*/',
+            # empty patterns among the others (written, or left by `||` / a leading `|`): they contribute nothing and stop nothing
+            '', 'a*||*.txt', '|*p', '{,a*}']
     excl = ['*.txt', '*a*', '.*', '*/', '**/x*', 'A*', 'd*']
     evals = 0
     nontriv = set()
@@ -71,6 +73,8 @@ def run(ctx):
                 for p in pats:
                     for b in bracex.expand(p, keep_escapes=True):
                         expanded.extend(b.split('|'))
+                if how == 'inline' and fv & Gm.NEGATEALL and not any(expanded):
+                    continue    # only empty inclusion patterns: whether NEGATEALL then supplies `**` is not stated anywhere
                 fsingle = fv & ~(Gm.BRACE | Gm.SPLIT | Gm.NEGATEALL) | Gm.NOUNIQUE
                 for p in expanded:
                     singles.append(Gm.glob(p, flags=fsingle & ~Gm.NODIR, root_dir=T.root))
